@@ -135,6 +135,41 @@ def run(rep: Report) -> None:
     rep.analysed["scan_scenarios"] = n
     rep.floor("scan scenarios", n, 60)
 
+    # ------------------------- (b') a step that fails leaves the element un-stepped
+    # (`has_next_states` is what the readiness scan trusts: it must not become true before
+    # the dynamics have produced the next states)
+    n_fail = 0
+    for st in ("SX", "MX"):
+        net = CP.build_network(prog, st)
+        CP.set_opaque_states(net)
+        for el in net.links + net.origins + net.dests:
+            decl = declared_of(prog, el.cls)
+            if not decl["states"]:
+                continue
+            el.attrs["next_states"] = None
+            stepfi = prog.lookup_method(el.cls, "step")
+            it = net.w.interp()
+            raised = None
+            try:
+                # the dynamics need the network and the model parameters: without them they raise
+                it.call_function(CP.FuncV(stepfi, el, defcls=stepfi.cls), [], {})
+            except Raised as e:
+                raised = e
+            n_fail += 1
+            cname = el.cls.split(":")[1]
+            if raised is None:
+                rep.undecided("failed-step-leaves-unstepped", f"{st}: {cname}", where,
+                              "step() without arguments did not raise: cannot provoke a failing step")
+                continue
+            ns = el.attrs.get("next_states")
+            rep.check(ns is None, "failed-step-leaves-unstepped", f"{st}: {cname} `{el.ident}`.step() raising "
+                      f"{raised.exc.split('.')[-1]}",
+                      f"{prog.modules[stepfi.module].relpath}:{stepfi.node.lineno} {stepfi.qualname}",
+                      f"after the failed step next_states is {ns!r}: has_next_states is true although the element was "
+                      "never stepped, and to_function would compile it without its next states",
+                      key=f"failstep|{cname}")
+    rep.floor("failing-step scenarios", n_fail, 6)
+
     # ----------------------------------------------------- (c) who may write
     n_stores = 0
     for mi in prog.modules.values():
